@@ -338,7 +338,7 @@ func c20Run(c *h.Ctx) {
 					default:
 					}
 					s.TE.PlayerExtendActionDeadline("", 0)
-					time.Sleep(time.Duration(20+nr.Intn(200)) * time.Microsecond)
+					time.Sleep(time.Duration(40+nr.Intn(300)) * time.Microsecond)
 				}
 			}(r.Int63())
 		}
